@@ -126,6 +126,25 @@ def object_events(entry, enc, tid0, rng, quick, run):
                     tid += 1
                     evs.append({"ev": "Decode", "tid": tid, "decoder": dname, "m": fec.limbs(cases[i][0], k), "e": fec.limbs(cases[i][1], n), "raised": False,
                                 "out": fec.limbs(o2[i] if o2[i] >= 0 else 0, k), "errs": [-1], "dtype": str(dt).replace("torch.", "")})
+        # the same words through the decoder after the nn.Module protocol (deep copy, pickle, eval mode) and under torch.no_grad() /
+        # inference_mode(): a form may be unavailable or reject the input, but an answer must not differ
+        from .core import call_contexts, module_forms
+        sub2 = min(len(cases), 32)
+        variants = []
+        if hasattr(dec, "forward"):
+            variants += [(kd, (lambda r, o=o2_: o(r))) for kd, o2_ in module_forms(dec, kinds=("deepcopy", "pickle", "eval"))]
+        variants += [(kd, (lambda r, c=c_: _under(c, dec, r))) for kd, c_ in call_contexts()]
+        for kd, fn in variants:
+            try:
+                o3, _ = _decode_all(fn, R[:sub2], k, want_errors=False)
+            except Exception:
+                continue
+            for i in range(sub2):
+                run.case((entry.name, dname, cases[i][0], cases[i][1], kd), nontrivial=cases[i][1] != 0)
+                if o3[i] is not None and o3[i] != outs[i]:
+                    tid += 1
+                    evs.append({"ev": "Decode", "tid": tid, "decoder": dname, "m": fec.limbs(cases[i][0], k), "e": fec.limbs(cases[i][1], n), "raised": False,
+                                "out": fec.limbs(o3[i] if o3[i] >= 0 else 0, k), "errs": [-1], "form": kd})
         if complete and ml_ok:
             words = list(range(1 << n)) if (1 << n) <= (budget) else [rng.randrange(1 << n) for _ in range(min(budget, 600))]
             R = torch.stack([fec.from_int(w, n) for w in words])
@@ -138,6 +157,11 @@ def object_events(entry, enc, tid0, rng, quick, run):
         if _t.time() - _t0 > 20:
             run.log("slow pairing %s / %s: %.0fs" % (entry.name, dname, _t.time() - _t0))
     return evs, tid
+
+
+def _under(ctx, dec, r):
+    with ctx():
+        return dec(r)
 
 
 def _decode_all(dec, R, k, want_errors, chunk=32):
